@@ -1,11 +1,13 @@
 -------------------------------- MODULE MCPdo --------------------------------
 EXTENDS CoPdoGen
 Ob(i, s, z, r, w, m, a) == [idx |-> i, sub |-> s, size |-> z, r |-> r, w |-> w, map |-> m, async |-> a]
-\* a, b: asynchronous mappable bytes; w: 16 bit mappable; l: 32 bit mappable; r: read-only mappable; n: not mappable
+\* a, b: asynchronous mappable bytes; w: 16 bit mappable; l: 32 bit mappable; r: read-only mappable; n: not mappable;
+\* W, L: asynchronous mappable 16 / 32 bit
 MCObjs == [a |-> Ob(8448, 0, 1, TRUE, TRUE, TRUE, TRUE), b |-> Ob(8449, 0, 1, TRUE, TRUE, TRUE, TRUE), w |-> Ob(8450, 0, 2, TRUE, TRUE, TRUE, FALSE),
-           l |-> Ob(8451, 0, 4, TRUE, TRUE, TRUE, FALSE), r |-> Ob(8452, 0, 1, TRUE, FALSE, TRUE, FALSE), n |-> Ob(8453, 0, 1, TRUE, TRUE, FALSE, FALSE)]
-MCOrder == <<"a", "b", "w", "l", "r", "n">>
-MCV0 == [a |-> <<1>>, b |-> <<2>>, w |-> <<3, 4>>, l |-> <<5, 6, 7, 8>>, r |-> <<9>>, n |-> <<10>>]
+           l |-> Ob(8451, 0, 4, TRUE, TRUE, TRUE, FALSE), r |-> Ob(8452, 0, 1, TRUE, FALSE, TRUE, FALSE), n |-> Ob(8453, 0, 1, TRUE, TRUE, FALSE, FALSE),
+           W |-> Ob(8454, 0, 2, TRUE, TRUE, TRUE, TRUE), L |-> Ob(8455, 0, 4, TRUE, TRUE, TRUE, TRUE)]
+MCOrder == <<"a", "b", "w", "l", "r", "n", "W", "L">>
+MCV0 == [a |-> <<1>>, b |-> <<2>>, w |-> <<3, 4>>, l |-> <<5, 6, 7, 8>>, r |-> <<9>>, n |-> <<10>>, W |-> <<0, 0>>, L |-> <<0, 0, 0, 0>>]
 M(o, bits) == MapOf(o, bits)    \* needs Objs = MCObjs
 Dm(idx, bits) == <<bits, 0, idx, 0>>
 Z4 == <<0, 0, 0, 0>>
@@ -24,6 +26,16 @@ P12 == << <<"tick">>, <<"tick">>, <<"tick">>, <<"tick">>, <<"trig", 1>>, <<"wr",
           <<"nmt", 128>>, <<"nmt", 1>>, <<"tick">>, <<"tick">>, <<"tick">>, <<"tick">>, <<"tick">>, <<"wr", "a", <<34>>>> >>
 P12B == << <<"nmt", 128>>, <<"nmt", 1>>, <<"pool">>, <<"trig", 1>>, <<"trig", 1>>, <<"tick">>, <<"pool">>, <<"trig", 1>>, <<"tick">>, <<"tick">>, <<"tick">>, <<"tick">>, <<"pool">> >>
 PNone == <<>>
+\* ---- C12V: "triggered by a CHANGED asynchronous object" for every width: values that differ from the stored one in exactly
+\*      one byte (each byte position), written by SDO, by the application and by an RPDO; unchanged values re-written
+TC12V == << TC(FALSE, 389, 254, 0, 0, 3, <<M("a", 8), M("W", 16), M("L", 32), Z4>>) >>
+RC12V == << RC(FALSE, 517, 254, 1, <<M("L", 32), Z4, Z4, Z4>>) >>
+VW == {<<0, 0>>, <<1, 0>>, <<0, 1>>}
+VL == {<<0, 0, 0, 0>>, <<1, 0, 0, 0>>, <<0, 1, 0, 0>>, <<0, 0, 1, 0>>, <<0, 0, 0, 1>>}
+L12V == {<<"nmt", 1>>, <<"nmt", 128>>, <<"wr", "a", <<1>>>>, <<"wr", "a", <<7>>>>}
+        \cup {<<k, "W", v>> : k \in {"wr", "api"}, v \in VW} \cup {<<k, "L", v>> : k \in {"wr", "api"}, v \in VL}
+        \cup {<<"rpdo", 517, v \o <<0, 0, 0, 0>>>> : v \in {<<0, 0, 0, 0>>, <<0, 0, 1, 0>>, <<1, 0, 0, 0>>}}
+P12V == << <<"nmt", 1>>, <<"wr", "L", <<0, 0, 0, 0>>>>, <<"api", "L", <<0, 0, 1, 0>>>>, <<"api", "L", <<0, 0, 1, 0>>>>, <<"wr", "W", <<0, 1>>>>, <<"wr", "W", <<0, 1>>>>, <<"api", "W", <<0, 0>>>> >>
 \* ---- C20 (PDO / SYNC part): SYNC producer on (2 ms), event TPDO with timers, synchronous RPDO; resets in every state
 TC20 == << TC(FALSE, 389, 254, 20, 3, 1, <<M("a", 8), Z4, Z4, Z4>>) >>
 RC20 == << RC(FALSE, 517, 1, 1, <<M("b", 8), Z4, Z4, Z4>>) >>
@@ -57,13 +69,13 @@ L14 == {<<"nmt", 1>>, <<"nmt", 128>>}
 L14T == {l \in L14 : l[1] = "nmt" \/ l[3] = TRUE}
 L14R == {l \in L14 : l[1] = "nmt" \/ l[3] = FALSE}
 L14Q == {<<"nmt", 1>>, <<"nmt", 128>>, <<"cfg", "cid", TRUE, 1, CidOffT>>, <<"cfg", "cid", TRUE, 1, CidOnT>>, <<"cfg", "cid", TRUE, 1, CidNoRtr>>, <<"cfg", "cid", FALSE, 1, CidOffR>>, <<"cfg", "cid", FALSE, 1, CidOnR2>>,
-         <<"cfg", "type", TRUE, 1, 1>>, <<"cfg", "num", TRUE, 1, 0>>, <<"cfg", "num", TRUE, 1, 2>>, <<"cfg", "num", TRUE, 1, 3>>, <<"cfg", "num", FALSE, 1, 0>>, <<"cfg", "num", FALSE, 1, 1>>,
+         <<"cfg", "type", TRUE, 1, 1>>, <<"cfg", "type", TRUE, 1, 254>>, <<"cfg", "num", TRUE, 1, 0>>, <<"cfg", "num", TRUE, 1, 2>>, <<"cfg", "num", TRUE, 1, 3>>, <<"cfg", "num", FALSE, 1, 0>>, <<"cfg", "num", FALSE, 1, 1>>,
          <<"cfg", "map", TRUE, 1, 1, M("l", 32)>>, <<"cfg", "map", TRUE, 1, 2, M("l", 32)>>, <<"cfg", "map", TRUE, 1, 3, M("l", 32)>>, <<"cfg", "map", TRUE, 1, 1, M("n", 8)>>, <<"cfg", "map", FALSE, 1, 1, M("r", 8)>>, <<"cfg", "map", FALSE, 1, 1, M("l", 32)>>}
 L14TQ == {l \in L14Q : l[1] = "nmt" \/ l[3] = TRUE}
 L14RQ == {l \in L14Q : l[1] = "nmt" \/ l[3] = FALSE} \cup {<<"cfg", "cid", FALSE, 1, CidOnR>>, <<"cfg", "num", FALSE, 1, 2>>, <<"cfg", "map", FALSE, 1, 2, M("l", 32)>>}
 P14 == << <<"rdcfg", "cid", TRUE, 1>>, <<"rdcfg", "type", TRUE, 1>>, <<"rdcfg", "num", TRUE, 1>>, <<"rdcfg", "map", TRUE, 1, 1>>, <<"rdcfg", "map", TRUE, 1, 2>>, <<"rdcfg", "map", TRUE, 1, 3>>,
           <<"rdcfg", "cid", FALSE, 1>>, <<"rdcfg", "num", FALSE, 1>>, <<"rdcfg", "map", FALSE, 1, 1>>,
-          <<"nmt", 128>>, <<"nmt", 1>>, <<"trig", 1>>, <<"rpdo", 517, D1>>, <<"rpdo", 518, D2>>, <<"rd", "b">>, <<"rd", "l">> >>
+          <<"nmt", 128>>, <<"nmt", 1>>, <<"trig", 1>>, <<"sync", 128>>, <<"rpdo", 517, D1>>, <<"rpdo", 518, D2>>, <<"sync", 128>>, <<"rd", "b">>, <<"rd", "l">> >>
 \* ---- C14W: eight mapping slots per PDO (8 x 32 bit stored, count 1): counts up to the largest the dictionary holds; the byte sum 8 * 4 = 32
 \*      (256 bit) is where an 8-bit bit counter would wrap; second TPDO with eight 8-bit entries where count 8 is exactly full
 L8 == <<M("l", 32), M("l", 32), M("l", 32), M("l", 32), M("l", 32), M("l", 32), M("l", 32), M("l", 32)>>
